@@ -284,6 +284,13 @@ func runCors(raw Sx) (Sx, Sx) {
 	cors, acc := corsFromSxAcc(cfgSx)
 	cors.Container = c1
 	c1.Filter(cors.Filter) // one filter value serves the whole sequence
+	// the caller goes on using its variable for the next container's configuration: the installed filter keeps the
+	// configuration it was installed with
+	cors.AllowedDomains = []string{"http://reconfigured.example"}
+	cors.AllowedDomainFunc = func(string) bool { return true }
+	cors.CookiesAllowed = !cors.CookiesAllowed
+	cors.ExposeHeaders = []string{"X-Reconfigured"}
+	cors.AllowedHeaders, cors.AllowedMethods, cors.MaxAge = []string{"X-Reconfigured"}, []string{"TRACE"}, 4242
 	o := NewOracles()
 	for _, d := range sxStrs(sxNth(cfgSx, 2)) {
 		o.Lower(d)
